@@ -255,7 +255,25 @@ func checkMain(args []string) {
 			continue
 		}
 		spec := w.Specs.Funcs[rep.Key]
+		// the obligations of this function, which were discharged on the unchanged tree, can no longer be
+		// generated from the changed body: reported as a violation of the obligation "contract binds"
+		reportUnbound := func() {
+			name := rep.Key + "#contract.binds"
+			if f := matchFindingName(kf, id, name); f != nil {
+				lines = append(lines, fmt.Sprintf("KNOWN-FINDING: property=%s %s [%s]", id, f.What, name))
+				return
+			}
+			violations++
+			rf := &ReplayFile{Property: id, Obligation: name, Function: rep.Key, Class: "binding", Status: rep.Status, Outcome: "no-failing-input-found",
+				Note: "the contract of this function does not bind to its body any more (" + rep.Reason + "): the obligations it generated on the unchanged tree cannot be generated, so the property is not established for this code"}
+			os.MkdirAll(filepath.Join(verif, "replays"), 0o755)
+			path := filepath.Join(verif, "replays", id+"-"+sanitize(strings.ReplaceAll(name, "#", "_"))+".json")
+			b, _ := json.MarshalIndent(rf, "", " ")
+			os.WriteFile(path, b, 0o644)
+			lines = append(lines, fmt.Sprintf("VIOLATION property=%s replay=%s obligation=%s no-failing-input-found", id, path, name))
+		}
 		if spec == nil || !racable(spec) || w.FnByKey[rep.Key] == nil {
+			reportUnbound()
 			continue
 		}
 		rel, pkgName := pkgRelOf(rep.Key)
@@ -278,6 +296,8 @@ func checkMain(args []string) {
 			b, _ := json.MarshalIndent(rf, "", " ")
 			os.WriteFile(path, b, 0o644)
 			lines = append(lines, fmt.Sprintf("VIOLATION property=%s replay=%s", id, path))
+		} else {
+			reportUnbound()
 		}
 	}
 	for _, r := range ps.Required {
